@@ -358,6 +358,9 @@ class StoreSave(Adapter):
                         st.compute_aggregate()
                     else:
                         st.compute_aggregate(name=nm)
+                if case.get("presave"):
+                    # the store object was already saved once, with other options: each save stands on its own
+                    st.save(**{"default": {}, "data": {"write_data": True}, "noaxes": {"write_axes": False}}[case["presave"]])
                 df = st.save(**self._kwargs(case))
                 canon = _frame_canon(df)
                 if case["mode"] == "pipe":
@@ -604,6 +607,9 @@ def gen_store(tier, rng):
             continue
         cases.append(c)
         made += 1
+    for c in cases:
+        if c.get("domain", True) and rng.random() < 0.25:
+            c["presave"] = rng.choice(["default", "data", "noaxes"])
     return cases
 
 
